@@ -201,3 +201,150 @@ def str_consts_in(body):
             if o["k"] == "const" and "str" in o:
                 out.append(o["str"])
     return out
+
+
+def bool_join_disjuncts(body, local, getters=None):
+    """Bool-join idiom: `let good = a && (b || c(..));` lowers to a bool local assigned in several leaf blocks by
+    constants or by a call result.  Returns, for every definition that can be true, the list of normalised atoms that
+    hold when that definition executes and yields true (facts dominating the defining block + the call being true)."""
+    out = []
+    for d in body.defs.get(local, []):
+        if d[2] == "assign":
+            rv = d[3]["rv"]
+            if rv["k"] == "use" and rv["op"]["k"] == "const" and rv["op"].get("int") == 0:
+                continue
+            atoms = [atom_norm(a, getters) for a in body.facts_at(d[0])]
+            if not (rv["k"] == "use" and rv["op"]["k"] == "const"):
+                t = body.rv_origin(rv)
+                atoms += [atom_norm(a, getters) for a in atoms_of(t, ("eq", 1))]
+            out.append((d[0], atoms))
+        elif d[2] == "call":
+            t = d[3]
+            c = t["callee"]
+            term = ("call", c.get("def") or "indirect", tuple(body.origin(a) for a in t["args"]), tuple(c.get("args", [])), d[0], c.get("resolved"))
+            atoms = [atom_norm(a, getters) for a in body.facts_at(d[0])] + [atom_norm(("bool", term, True), getters)]
+            out.append((d[0], atoms))
+    return out
+
+
+def eval_int(t):
+    """constant-fold an integer term; None if not constant"""
+    t = strip(t)
+    k = t[0]
+    if k == "int":
+        return t[1]
+    if k == "constdef" and t[2] is not None:
+        return t[2]
+    if k == "cast":
+        return eval_int(t[1])
+    if k == "field" and t[1][0] == "binop" and str(t[2]) == "0":
+        return eval_int(t[1])
+    if k == "unop" and t[1] == "Neg":
+        v = eval_int(t[2])
+        return None if v is None else -v
+    if k == "binop":
+        a, b = eval_int(t[2]), eval_int(t[3])
+        if a is None or b is None:
+            return None
+        op = t[1].replace("WithOverflow", "")
+        if op == "Add":
+            return a + b
+        if op == "Sub":
+            return a - b
+        if op == "Mul":
+            return a * b
+        if op == "Div" and b != 0:
+            return int(a / b)
+    return None
+
+
+def match_table(body, getters=None):
+    """for a function that is a `match` on a discriminant / integer returning constants: {switch value: returned term, 'otherwise': term}"""
+    out = {}
+    for bi, blk in body.live_blocks():
+        t = blk["term"]
+        if t["k"] != "switch":
+            continue
+        for v, tgt in list(t["targets"]) + [("otherwise", t["otherwise"])]:
+            # follow gotos to the first assignment to _0
+            cur = tgt
+            seen = set()
+            val = None
+            while cur is not None and cur not in seen:
+                seen.add(cur)
+                b2 = body.blocks[cur]
+                for s in b2["stmts"]:
+                    if s["k"] == "assign" and s["place"]["l"] == 0 and not s["place"]["p"]:
+                        val = body.rv_origin(s["rv"])
+                if val is not None:
+                    break
+                if b2["term"]["k"] == "call" and b2["term"]["dest"]["l"] == 0:
+                    tt = b2["term"]
+                    val = ("call", tt["callee"].get("def", ""), tuple(body.origin(a) for a in tt["args"]), (), cur, None)
+                    break
+                nxt = body.succ().get(cur, [])
+                if b2["term"]["k"] in ("goto", "assert", "call") and len(nxt) == 1:
+                    cur = nxt[0]
+                else:
+                    cur = None
+            out[v] = val
+        return out, norm(body.origin(t["discr"]), getters)
+    return None, None
+
+
+def counter_rule(ctx, rule, new_fn, next_fn, ctor_suffix, getters):
+    """numbered consecutively from 1: counter starts at 0, is incremented by the constant 1 exactly once on the Some path,
+    before it is handed to the constructor"""
+    nb = ctx.body(new_fn)
+    init = None
+    for bi, si, s in nb.assigns():
+        rv = s["rv"]
+        if rv["k"] == "aggregate" and rv.get("agg") == "adt" and "counter" in rv.get("fields", []):
+            init = norm(nb.origin(rv["ops"][rv["fields"].index("counter")]), getters)
+    ctx.require(init == ("int", 0), rule, new_fn, "counter:init", "counter starts at 0", "counter is initialised to %s, not 0" % (init and show(init, 1),))
+    b = ctx.body(next_fn)
+    ctx.scan([nb, b])
+    writes = []
+    for bi, si, s in b.assigns():
+        p = s["place"]
+        if p["p"] and p["p"][-1]["k"] == "field" and p["p"][-1]["name"] == "counter":
+            writes.append((bi, si, norm(b.rv_origin(s["rv"]), getters)))
+    me = ("param", 1, b.debug.get(1, ""))
+    inc = ("field", ("binop", "AddWithOverflow", ("field", me, "counter"), ("int", 1)), "0")
+    ok_w = len(writes) == 1 and writes[0][2] in (inc, ("binop", "Add", ("field", me, "counter"), ("int", 1)))
+    ctx.require(ok_w, rule, next_fn, "counter:+=1", "exactly one write: counter = counter + 1",
+                "counter is not incremented by exactly the constant 1 exactly once: %s" % [show(w[2], 1)[:40] for w in writes])
+    ctors = [(bi, t) for bi, t in b.calls(ctor_suffix)]
+    ctx.require(len(ctors) >= 1, rule, next_fn, "constructor", "numbered constructor called", "constructor %s not called" % ctor_suffix)
+    for bi, t in ctors:
+        # the counter operand is read from self.counter after the write
+        arg = t["args"][-1]
+        okread = False
+        if arg["k"] in ("copy", "move") and not arg["place"]["p"] and writes:
+            rd = _field_read_stmt(b, arg["place"]["l"], "counter")
+            if rd is not None:
+                wb, ws, _ = writes[0]
+                okread = (rd[0] == wb and rd[1] > ws) or (rd[0] != wb and b.dominates(wb, rd[0]))
+        ctx.require(okread, rule, next_fn, "counter:read-after-increment", "the number handed out is the counter after the increment (first item gets 1)",
+                    "the counter value handed to the constructor is not read after the increment (numbering would start at 0 / repeat)", b.span_of(bi))
+        somes = [x for x in b.facts_at(bi) if x[0] == "variant" and x[2] == 1]
+        ctx.require(bool(somes), rule, next_fn, "counter:some-path", "increment and construction happen only when the back-tracker produced an item",
+                    "numbering is not tied to the Some path", b.span_of(bi))
+
+
+def _field_read_stmt(b, local, field, depth=0):
+    """(bb, stmt index) of the statement that actually loads `<place>.field` into the copy chain ending in `local`"""
+    if depth > 6:
+        return None
+    ds = b.defs.get(local, [])
+    if len(ds) != 1 or ds[0][2] != "assign":
+        return None
+    rv = ds[0][3]["rv"]
+    if rv["k"] != "use" or rv["op"]["k"] not in ("copy", "move"):
+        return None
+    pl = rv["op"]["place"]
+    if pl["p"]:
+        if pl["p"][-1]["k"] == "field" and pl["p"][-1]["name"] == field:
+            return (ds[0][0], ds[0][1])
+        return None
+    return _field_read_stmt(b, pl["l"], field, depth + 1)
